@@ -7,7 +7,7 @@
    `cfg_ok` = what the parser guarantees (login script exists: F14; blocks non-empty; formats %s/%%-only) + formatted send strings fit 64 KiB. *)
 From Coq Require Import List NArith ZArith Bool Lia.
 From PM Require Import Base.Bytes Base.Outcome Base.Dec Gen.GenConsts Gen.GenCbuf Model.ScriptAst Model.Enqueue Model.Script Model.Device
-  Model.DevHarness Proofs.DeviceProofs Proofs.DeviceStmt Proofs.DeviceInv Proofs.DeviceRun Proofs.DeviceTimer Proofs.DeviceLocal Proofs.DeviceThms.
+  Model.DevHarness Proofs.DeviceProofs Proofs.DeviceStmt Proofs.DeviceStmtG Proofs.DeviceInv Proofs.DeviceInvG Proofs.DeviceRun Proofs.DeviceTimer Proofs.DeviceLocal Proofs.DeviceThms.
 Import ListNotations.
 Local Open Scope Z_scope.
 
@@ -63,6 +63,21 @@ Qed.
 Print Assumptions C10_bytes_by_statements_only.
 
 
+(* telemetry and diagnostics arrive while the client is still busy: in the event list of one device's share of dev_post_poll, every
+   telemetry (vpf_fun) and diagnostic (dpf_fun) callback goes to a client whose action is completed LATER in the same list or is still
+   queued on the device afterwards - never after its completion callback.  Flags = only actions with a completion callback carry the
+   other two callbacks (true of every action device.c creates: login / ping carry none; client actions carry all of complete_fun, dpf_fun);
+   it is preserved.  For ANY preprocess result (tcp transports included). *)
+Theorem C10_callbacks_live : forall (rmatch : text -> text -> option pmatch) (compress : list text -> text) (sc : bool) now d store tmo pin d' store' tmo' evs,
+  DInv compress d -> Flags d -> tmo_pos tmo -> 0 <= dv_retry_count d ->
+  post_poll_one rmatch compress sc now d store tmo pin = Ok (d', store', tmo', evs) ->
+  Flags d' /\
+  forall e1 c m e2, (evs = e1 ++ [EvTele c m] ++ e2 \/ evs = e1 ++ [EvDiag c m] ++ e2) -> In c (completions e2 ++ queued d').
+Proof.
+  exact post_poll_one_callbacks_live.
+Qed.
+Print Assumptions C10_callbacks_live.
+
 (* non-vacuity: a device with a login and an `on` script, run through a history with a time-out *)
 Definition ex_rmatch : text -> text -> option pmatch := fun _ _ => None.
 Definition ex_compress : list text -> text := fun _ => [].
@@ -83,3 +98,15 @@ Example C10_login_first_example :
   exists h outs d p l r, run ex_rmatch ex_compress false ex_h0 (firstn 4 ex_ops) = Ok (h, outs) /\ nth_error (h_devs h) 0 = Some (d, p) /\
     dv_cstate d = DEV_CONNECTED /\ dv_logged_in d = false /\ dv_acts d = l :: r /\ is_login l = true.
 Proof. vm_compute. eexists _, _, _, _, _, _. repeat split. Qed.
+
+(* non-vacuity of C10_callbacks_live: a telemetry-enabled `on` of client 7: the send's telemetry line arrives while 7 is queued; at the
+   time-out the telemetry line (what was received) precedes the completion *)
+Definition ex_rmatch_ok : text -> text -> option pmatch :=
+  fun re s => if text_eqb re (bslit "ok") then (if text_eqb s (bslit "ok") then Some [Some (O, 2%nat)] else None) else None.
+Example C10_callbacks_live_example :
+  exists h outs, run ex_rmatch_ok ex_compress false ex_h0
+      [HNow 1000000; HPlan 0 [ConnNow; ConnNow]; HInit; HPass; HFeed 0 (bslit "ok"); HPass; HNewArgs [bslit "n1"]; HEnq PM_POWER_ON 7 true 0 [bslit "n1"];
+       HPass; HPass; HNow 7000000; HPass] = Ok (h, outs) /\
+    (exists b m, evs_of 0 (o_evs (nth 8 outs out0)) = [EvSent b; EvTele 7 m]) /\
+    exists m1 m2 e2, evs_of 0 (o_evs (last outs out0)) = EvTele 7 m1 :: EvComplete 7 ACT_EEXPFAIL m2 :: e2.
+Proof. vm_compute. eexists _, _. split; [reflexivity|]. split; [eexists _, _; reflexivity|eexists _, _, _; reflexivity]. Qed.
